@@ -152,7 +152,8 @@ Fixpoint tmatch (ts : list tok) (a : str) : bool :=
   end.
 
 (* --- character classes: '[' has been consumed.  filepath.Match: [^]{range}+ with \-escapes (bs = true);
-       regexp: the same shape without escapes, '[' rejected (bs = false; richer regexp classes -> None) *)
+       regexp: the same shape, only the escapes \. and \+ (which toRegexString produces), '[' rejected
+       (bs = false; richer regexp classes -> None) *)
 Inductive cst := CLo (esc : bool) | CAfter (lo : N) | CHi (lo : N) (esc : bool).
 
 Fixpoint pclass (bs : bool) (st : cst) (acc : list (N * N)) (a : str) : option (list (N * N) * str) :=
@@ -162,17 +163,17 @@ Fixpoint pclass (bs : bool) (st : cst) (acc : list (N * N)) (a : str) : option (
       let lo_step acc :=
         if N.eqb c RBR then match acc with [] => None | _ => Some (rev acc, r) end
         else if N.eqb c DASH then None
-        else if N.eqb c BSL then (if bs then pclass bs (CLo true) acc r else None)
+        else if N.eqb c BSL then pclass bs (CLo true) acc r
         else if negb bs && N.eqb c LBR then None
         else pclass bs (CAfter c) acc r in
       match st with
-      | CLo true => pclass bs (CAfter c) acc r
+      | CLo true => if bs || N.eqb c DOT || N.eqb c PLUS then pclass bs (CAfter c) acc r else None
       | CLo false => lo_step acc
       | CAfter lo => if N.eqb c DASH then pclass bs (CHi lo false) acc r else lo_step ((lo, lo) :: acc)
-      | CHi lo true => pclass bs (CLo false) ((lo, c) :: acc) r
+      | CHi lo true => if bs || ((N.eqb c DOT || N.eqb c PLUS) && N.leb lo c) then pclass bs (CLo false) ((lo, c) :: acc) r else None
       | CHi lo false =>
           if N.eqb c RBR || N.eqb c DASH then None
-          else if N.eqb c BSL then (if bs then pclass bs (CHi lo true) acc r else None)
+          else if N.eqb c BSL then pclass bs (CHi lo true) acc r
           else if negb bs && (N.eqb c LBR || N.ltb c lo) then None
           else pclass bs (CLo false) ((lo, c) :: acc) r
       end
